@@ -101,6 +101,13 @@ in file order to the current name, so `a => b`, `b => c` reports `c`), not Go's 
 def expected (d : Doc) : List NV :=
   dedup ((if stdlibVersion d ≠ [] then [⟨"stdlib".toList, stdlibVersion d⟩] else []) ++
     (d.requires.filter fun r => decide (stdlibVersion d = [] ∨ keyOf r ≠ stdlibKey)).map (finalOf d))
+
+/-- with the go.sum branch (go older than 1.17 and a readable go.sum): additionally every module go.sum lists (not its `/go.mod` hash
+lines), at the version written there; one package per distinct (name, version) -/
+def expectedSum (d : Doc) (older : Bool) (sum : Sum) : List NV :=
+  match older, sum with
+  | true, some es => dedup (expected d ++ es.filterMap sumEntry)
+  | _, _ => expected d
 end GoMod
 
 end Scalibr.Lockfiles
